@@ -392,15 +392,7 @@ class ExcelInPython:
         result_date = datetime.datetime(year, 1, 1)
 
         result_date += relativedelta(months=month - 1)
-
-        days_in_current_month = calendar.monthrange(result_date.year, result_date.month)[1]
-        if abs(day) > days_in_current_month:
-            while abs(day) > days_in_current_month:
-                result_date += relativedelta(months=1 if (day > 0) else (-1))
-                day += (-days_in_current_month) if day > 0 else days_in_current_month
-                days_in_current_month = calendar.monthrange(result_date.year, result_date.month)[1]
-
-        result_date += relativedelta(days=day - 1 if (day >= -1) else day - 2)
+        result_date += datetime.timedelta(days=day - 1)
 
         return result_date
 
